@@ -1,5 +1,779 @@
+//! C08 — find_iter yields exactly the successive leftmost non-overlapping matches.
+//!
+//! System under simulation: the `Matches` state machine, stepped one `next()` at a time over the
+//! real search primitive; the lower layer fails at an injected search (limit faults keyed by the
+//! thread's vm::run ordinal). Oracle: an executable transcription of the statement that queries the
+//! same fault-injected search layer, plus in-run invariants and fused-after-Err.
+
+use crate::c20::minimise_ast;
 use crate::common::*;
-use serde_json::Value;
-pub fn run(_opts: &Opts) -> i32 { 2 }
-pub fn replay(_case: &Value) -> Option<(String, String)> { None }
-pub fn digest(_seed: u64, _n: u64, _workers: usize) -> Vec<u64> { Vec::new() }
+use crate::gen::{self, GenCfg, Node};
+use crate::rng::{derive, Fnv, Rng};
+use fancy_regex::verif::{self, EndReason, LimitOverride, RunStats, SearchCall};
+use fancy_regex::{Regex, RegexBuilder};
+use serde_json::{json, Value};
+use std::collections::HashSet;
+
+pub const PROP: &str = "C08";
+pub const KNOWN_KEY_KEEPOUT: &str = "keepout-in-lookbehind-moves-start-before-search-position";
+pub const KEEPOUT_WITNESSES: &[(&str, &str)] = &[(r"a|(?<=\Ka)b", "ab"), (r"\w(?<=\K\w)", "ab")];
+
+#[derive(Clone, Debug, PartialEq, Eq)]
+pub enum Item {
+    Match(usize, usize),
+    Err(ErrKind),
+    Panic(String),
+}
+
+#[derive(Clone, Debug, PartialEq, Eq)]
+pub struct IterFault {
+    /// vm::run ordinal (0-based) of the search to fail
+    pub j: u64,
+    pub kind: String, // "ble" | "so"
+    pub val: usize,
+}
+
+#[derive(Clone, Debug)]
+pub struct Case {
+    pub pattern: String,
+    pub text: String,
+    pub fault: Option<IterFault>,
+    /// build through RegexBuilder::backtrack_limit(k) instead of Regex::new
+    pub builder: Option<usize>,
+}
+
+impl Case {
+    pub fn to_json(&self) -> Value {
+        json!({
+            "kind": "c08",
+            "pattern": self.pattern,
+            "text": self.text,
+            "fault": self.fault.as_ref().map(|f| json!([f.j, f.kind, f.val])),
+            "builder": self.builder,
+        })
+    }
+    pub fn from_json(v: &Value) -> Option<Case> {
+        Some(Case {
+            pattern: v["pattern"].as_str()?.to_string(),
+            text: v["text"].as_str()?.to_string(),
+            fault: match &v["fault"] {
+                Value::Array(a) => Some(IterFault {
+                    j: a[0].as_u64()?,
+                    kind: a[1].as_str()?.to_string(),
+                    val: a[2].as_u64()? as usize,
+                }),
+                _ => None,
+            },
+            builder: v["builder"].as_u64().map(|x| x as usize),
+        })
+    }
+    pub fn build(&self) -> Option<Regex> {
+        match self.builder {
+            None => compile(&self.pattern),
+            Some(k) => std::panic::catch_unwind(|| RegexBuilder::new(&self.pattern).backtrack_limit(k).build())
+                .ok()
+                .and_then(|r| r.ok()),
+        }
+    }
+}
+
+pub fn plan_of(f: &Option<IterFault>) -> Vec<(u64, LimitOverride)> {
+    match f {
+        None => Vec::new(),
+        Some(f) => vec![(
+            f.j,
+            if f.kind == "ble" {
+                LimitOverride { backtrack_limit: Some(f.val), max_stack: None }
+            } else {
+                LimitOverride { backtrack_limit: None, max_stack: Some(f.val) }
+            },
+        )],
+    }
+}
+
+pub struct History {
+    pub items: Vec<Item>,
+    pub calls: Vec<SearchCall>,
+    pub runs: Vec<RunStats>,
+    /// next() calls made after the end (None or Err) and what they returned
+    pub after_end: Vec<Option<Item>>,
+    pub ended: bool,
+}
+
+fn begin(plan: Vec<(u64, LimitOverride)>) {
+    verif::reset_run_ordinal();
+    verif::set_fault_plan(plan);
+    verif::record_search_calls(true);
+    verif::record_run_stats(true);
+}
+
+fn end() -> (Vec<SearchCall>, Vec<RunStats>) {
+    verif::set_fault_plan(Vec::new());
+    let c = verif::take_search_calls();
+    let r = verif::take_run_stats();
+    verif::record_search_calls(false);
+    verif::record_run_stats(false);
+    (c, r)
+}
+
+/// Step the real iterator to its end (bounded), recording the history.
+pub fn real_history(re: &Regex, text: &str, fault: &Option<IterFault>) -> History {
+    let cap = text.chars().count() + 3;
+    begin(plan_of(fault));
+    let mut items = Vec::new();
+    let mut after_end = Vec::new();
+    let mut ended = false;
+    {
+        let mut it = re.find_iter(text);
+        while items.len() < cap {
+            let r = guarded_plain(|| it.next());
+            match r {
+                Outcome::Ok(None) => {
+                    ended = true;
+                    break;
+                }
+                Outcome::Ok(Some(Ok(m))) => items.push(Item::Match(m.start(), m.end())),
+                Outcome::Ok(Some(Err(e))) => {
+                    items.push(Item::Err(err_kind(&e)));
+                    ended = true;
+                    // fused after Err: the next calls must all return None
+                    for _ in 0..3 {
+                        match guarded_plain(|| it.next()) {
+                            Outcome::Ok(None) => after_end.push(None),
+                            Outcome::Ok(Some(Ok(m))) => after_end.push(Some(Item::Match(m.start(), m.end()))),
+                            Outcome::Ok(Some(Err(e))) => after_end.push(Some(Item::Err(err_kind(&e)))),
+                            Outcome::Panic(p) => after_end.push(Some(Item::Panic(p))),
+                            Outcome::Err(_) => unreachable!(),
+                        }
+                    }
+                    break;
+                }
+                Outcome::Panic(p) => {
+                    items.push(Item::Panic(p));
+                    ended = true;
+                    break;
+                }
+                Outcome::Err(_) => unreachable!(),
+            }
+        }
+    }
+    let (calls, runs) = end();
+    History { items, calls, runs, after_end, ended }
+}
+
+/// The statement, executable: repeatedly take the leftmost match from the previous end; after an
+/// empty match step one character; drop an empty match adjacent to the previous match; stop at the
+/// first "no match"; an error ends the sequence. `\G` must not hold at a position reached by
+/// stepping over an empty match, so the search layer is told about the step.
+pub fn model_history(re: &Regex, text: &str, fault: &Option<IterFault>) -> History {
+    let cap = text.chars().count() + 3;
+    begin(plan_of(fault));
+    let mut items = Vec::new();
+    let mut pos = 0usize;
+    let mut stepped = false;
+    let mut prev_end: Option<usize> = None;
+    let mut ended = false;
+    while items.len() < cap {
+        if pos > text.len() {
+            ended = true;
+            break;
+        }
+        let r = guarded(|| {
+            re.verif_find_with_flags(text, pos, if stepped { 2 } else { 0 })
+                .map(|m| m.map(|m| (m.start(), m.end())))
+        });
+        match r {
+            Outcome::Err(e) => {
+                items.push(Item::Err(e));
+                ended = true;
+                break;
+            }
+            Outcome::Panic(p) => {
+                items.push(Item::Panic(p));
+                ended = true;
+                break;
+            }
+            Outcome::Ok(None) => {
+                ended = true;
+                break;
+            }
+            Outcome::Ok(Some((s, e))) => {
+                if s == e {
+                    // step one character (one past the end when already at the end)
+                    pos = match text.get(e..).and_then(|t| t.chars().next()) {
+                        Some(c) => e + c.len_utf8(),
+                        None => e + 1,
+                    };
+                    stepped = true;
+                    if Some(e) == prev_end {
+                        continue;
+                    }
+                } else {
+                    pos = e;
+                    stepped = false;
+                }
+                prev_end = Some(e);
+                items.push(Item::Match(s, e));
+            }
+        }
+    }
+    let (calls, runs) = end();
+    History { items, calls, runs, after_end: Vec::new(), ended }
+}
+
+/// In-run invariants of the statement that do not need the model.
+pub fn invariants(text: &str, h: &History) -> Option<(&'static str, String)> {
+    let chars = text.chars().count();
+    let n_matches = h.items.iter().filter(|i| matches!(i, Item::Match(..))).count();
+    if !h.ended || n_matches > chars + 1 {
+        return Some((
+            "iterator-does-not-terminate",
+            format!("{} items from a text of {} characters (ended: {}): {:?}", h.items.len(), chars, h.ended, &h.items[..h.items.len().min(6)]),
+        ));
+    }
+    let mut prev: Option<(usize, usize)> = None;
+    for (i, it) in h.items.iter().enumerate() {
+        match it {
+            Item::Match(s, e) => {
+                if !(s <= e && *e <= text.len() && text.is_char_boundary(*s) && text.is_char_boundary(*e)) {
+                    return Some(("invalid-span", format!("item #{} = ({},{}) in a text of {} bytes", i, s, e, text.len())));
+                }
+                if let Some((ps, pe)) = prev {
+                    if *s < pe {
+                        return Some(("items-overlap", format!("item #{} = ({},{}) starts before the previous match ({},{}) ended", i, s, e, ps, pe)));
+                    }
+                    if *e <= pe {
+                        return Some(("items-not-increasing", format!("item #{} = ({},{}) after ({},{})", i, s, e, ps, pe)));
+                    }
+                }
+                prev = Some((*s, *e));
+            }
+            Item::Err(_) | Item::Panic(_) => {
+                if i + 1 != h.items.len() {
+                    return Some(("items-after-error", format!("item #{} is {:?} but {} items follow", i, it, h.items.len() - i - 1)));
+                }
+            }
+        }
+    }
+    for (i, a) in h.after_end.iter().enumerate() {
+        if let Some(x) = a {
+            return Some(("not-fused-after-error", format!("next() call #{} after the Err item returned {:?}", i + 1, x)));
+        }
+    }
+    None
+}
+
+#[derive(Default, Clone, Debug)]
+pub struct Stats {
+    pub histories: u64,
+    pub next_calls: u64,
+    pub searches: u64,
+    pub vm_insns: u64,
+    pub faults_configured: u64,
+    pub faults_fired: u64,
+    pub err_first: u64,
+    pub err_middle: u64,
+    pub err_last: u64,
+    pub empty_skipped: u64,
+    pub adjacent_dropped: u64,
+    pub multibyte_step: u64,
+    pub g_refused_after_skip: u64,
+    pub builder_cases: u64,
+    pub interleaved: u64,
+    pub nontrivial: bool,
+    pub digest: u64,
+}
+
+fn probe_history(text: &str, h: &History, st: &mut Stats) {
+    st.histories += 1;
+    st.next_calls += h.items.len() as u64 + 1;
+    st.searches += h.calls.len() as u64;
+    for r in &h.runs {
+        st.vm_insns += r.insns;
+    }
+    let mut prev_end = None;
+    for it in &h.items {
+        if let Item::Match(s, e) = it {
+            if s == e {
+                st.empty_skipped += 1;
+                if *e < text.len() && text[*e..].chars().next().map_or(false, |c| c.len_utf8() > 1) {
+                    st.multibyte_step += 1;
+                }
+            }
+            prev_end = Some(*e);
+        }
+    }
+    let _ = prev_end;
+    // adjacent empty match dropped: more successful searches than yielded matches
+    let matches = h.items.iter().filter(|i| matches!(i, Item::Match(..))).count();
+    let found_searches = h.runs.iter().filter(|r| r.end == EndReason::Match).count();
+    if !h.runs.is_empty() && found_searches > matches {
+        st.adjacent_dropped += (found_searches - matches) as u64;
+    }
+    st.g_refused_after_skip += h.calls.iter().filter(|c| c.option_flags & 2 != 0).count() as u64;
+    let mut d = Fnv(st.digest ^ 0x77);
+    d.str(&format!("{:?}", h.items));
+    d.u64(h.calls.len() as u64);
+    st.digest = d.0;
+}
+
+pub struct Found {
+    pub class: String,
+    pub detail: String,
+}
+
+/// Check one (regex, text, fault): real history vs invariants vs model, and (under a fault) the
+/// narrow expectation against the fault-free history.
+pub fn check_one(re: &Regex, text: &str, fault: &Option<IterFault>, ff: Option<&History>, st: &mut Stats) -> Option<Found> {
+    let real = real_history(re, text, fault);
+    probe_history(text, &real, st);
+    if let Some(Item::Panic(_)) = real.items.last() {
+        // a panicking search: with an injected fault that is a violation of the fault clause,
+        // fault-free it is C05's business
+        if fault.is_some() {
+            if let Some(ff) = ff {
+                if !matches!(ff.items.last(), Some(Item::Panic(_))) {
+                    return Some(Found { class: "fault-panic".into(), detail: format!("injected {:?} made find_iter panic: {:?}", fault, real.items.last()) });
+                }
+            }
+        }
+        return None;
+    }
+    if let Some((c, d)) = invariants(text, &real) {
+        return Some(Found { class: c.into(), detail: d });
+    }
+    let model = model_history(re, text, fault);
+    if real.items != model.items {
+        return Some(Found {
+            class: "sequence-differs-from-model".into(),
+            detail: format!("find_iter yielded {:?} ; the statement's iteration over the same search layer yields {:?}", real.items, model.items),
+        });
+    }
+    if real.calls != model.calls {
+        return Some(Found {
+            class: "search-calls-differ-from-model".into(),
+            detail: format!("find_iter searched {:?} ; the statement's iteration searches {:?}", short_calls(&real.calls), short_calls(&model.calls)),
+        });
+    }
+    if let (Some(f), Some(ff)) = (fault, ff) {
+        st.faults_configured += 1;
+        let fired = real.runs.iter().any(|r| r.ordinal == f.j && matches!(r.end, EndReason::BacktrackLimit | EndReason::StackOverflow));
+        if fired {
+            st.faults_fired += 1;
+            let expect_kind = if f.kind == "ble" { ErrKind::BacktrackLimit } else { ErrKind::StackOverflow };
+            match real.items.last() {
+                Some(Item::Err(k)) if *k == expect_kind => {}
+                other => {
+                    return Some(Found {
+                        class: "fired-fault-not-reported".into(),
+                        detail: format!("search #{} aborted with {:?} but the iterator's last item is {:?}", f.j, expect_kind, other),
+                    })
+                }
+            }
+            let n = real.items.len() - 1;
+            if n > ff.items.len() || real.items[..n] != ff.items[..n] {
+                return Some(Found {
+                    class: "prefix-before-fault-differs".into(),
+                    detail: format!("items before the aborted search {:?} are not a prefix of the fault-free sequence {:?}", &real.items[..n], ff.items),
+                });
+            }
+            // which search of the iteration failed
+            let total = ff.runs.len() as u64;
+            if f.j == 0 {
+                st.err_first += 1;
+            } else if f.j + 1 >= total {
+                st.err_last += 1;
+            } else {
+                st.err_middle += 1;
+            }
+        } else if real.items != ff.items {
+            return Some(Found {
+                class: "unfired-fault-changed-result".into(),
+                detail: format!("fault {:?} did not fire, yet the sequence {:?} differs from the fault-free {:?}", f, real.items, ff.items),
+            });
+        }
+    }
+    None
+}
+
+fn short_calls(c: &[SearchCall]) -> Vec<(usize, u32)> {
+    c.iter().map(|c| (c.pos, c.option_flags)).collect()
+}
+
+/// Full check of a case: fault-free first, then the given fault.
+pub fn check_case(case: &Case, st: &mut Stats) -> Option<Found> {
+    let re = case.build()?;
+    let ff = real_history(&re, &case.text, &None);
+    if case.fault.is_none() {
+        return check_one(&re, &case.text, &None, None, st);
+    }
+    check_one(&re, &case.text, &case.fault, Some(&ff), st)
+}
+
+pub fn replay(case: &Value) -> Option<(String, String)> {
+    if case["kind"].as_str() == Some("c08-interleaved") {
+        return replay_interleaved(case);
+    }
+    let c = Case::from_json(case)?;
+    let mut st = Stats::default();
+    check_case(&c, &mut st).map(|f| (f.class, f.detail))
+}
+
+fn class_of(case: &Case) -> Option<String> {
+    let mut st = Stats::default();
+    check_case(case, &mut st).map(|f| f.class)
+}
+
+fn minimise(case: &Case, ast: Option<&Node>, class: &str) -> Case {
+    let mut cur = case.clone();
+    if cur.fault.is_some() {
+        let mut c = cur.clone();
+        c.fault = None;
+        if class_of(&c).as_deref() == Some(class) {
+            cur = c;
+        }
+    }
+    loop {
+        let mut progressed = false;
+        for t in gen::text_shrinks(&cur.text) {
+            let mut c = cur.clone();
+            c.text = t;
+            if class_of(&c).as_deref() == Some(class) {
+                cur = c;
+                progressed = true;
+                break;
+            }
+        }
+        if !progressed {
+            break;
+        }
+    }
+    if let Some(ast) = ast {
+        let base = cur.clone();
+        let small = minimise_ast(ast, &|p: &str| {
+            let mut c = base.clone();
+            c.pattern = p.to_string();
+            class_of(&c).as_deref() == Some(class)
+        });
+        let mut c = cur.clone();
+        c.pattern = small.render();
+        if class_of(&c).as_deref() == Some(class) {
+            cur = c;
+        }
+    }
+    cur
+}
+
+// ------------------------------------------------------------------------------------------------
+// several iterators over one regex, stepped interleaved on one thread
+
+fn interleaved(re: &Regex, texts: &[String], order: &[usize]) -> Option<Found> {
+    // standalone histories first
+    let alone: Vec<Vec<Item>> = texts.iter().map(|t| real_history(re, t, &None).items).collect();
+    let mut its: Vec<_> = texts.iter().map(|t| re.find_iter(t)).collect();
+    let mut got: Vec<Vec<Item>> = vec![Vec::new(); texts.len()];
+    let mut done = vec![false; texts.len()];
+    for &k in order {
+        if done[k] {
+            continue;
+        }
+        match guarded_plain(|| its[k].next()) {
+            Outcome::Ok(None) => done[k] = true,
+            Outcome::Ok(Some(Ok(m))) => got[k].push(Item::Match(m.start(), m.end())),
+            Outcome::Ok(Some(Err(e))) => {
+                got[k].push(Item::Err(err_kind(&e)));
+                done[k] = true
+            }
+            Outcome::Panic(p) => {
+                got[k].push(Item::Panic(p));
+                done[k] = true
+            }
+            Outcome::Err(_) => unreachable!(),
+        }
+        if got[k].len() > texts[k].chars().count() + 3 {
+            done[k] = true;
+        }
+    }
+    for k in 0..texts.len() {
+        let n = got[k].len();
+        let complete = done[k];
+        let expect = &alone[k];
+        let ok = if complete { &got[k] == expect } else { n <= expect.len() && got[k][..] == expect[..n] };
+        if !ok {
+            return Some(Found {
+                class: "interleaved-iterators-interfere".into(),
+                detail: format!("iterator #{} over {:?} yielded {:?} when stepped interleaved (order {:?}); alone it yields {:?}", k, texts[k], got[k], order, expect),
+            });
+        }
+    }
+    None
+}
+
+fn replay_interleaved(case: &Value) -> Option<(String, String)> {
+    let pattern = case["pattern"].as_str()?;
+    let builder = case["builder"].as_u64().map(|x| x as usize);
+    let c = Case { pattern: pattern.to_string(), text: String::new(), fault: None, builder };
+    let re = c.build()?;
+    let texts: Vec<String> = case["texts"].as_array()?.iter().map(|t| t.as_str().unwrap_or("").to_string()).collect();
+    let order: Vec<usize> = case["order"].as_array()?.iter().map(|t| t.as_u64().unwrap_or(0) as usize).collect();
+    interleaved(&re, &texts, &order).map(|f| (f.class, f.detail))
+}
+
+// ------------------------------------------------------------------------------------------------
+
+fn gen_cfg(rng: &mut Rng) -> GenCfg {
+    let mut cfg = GenCfg::swarm(rng);
+    // known finding: \K inside a look-behind can move the match start before the search position
+    cfg.allow_keepout_in_look = false;
+    cfg.allow_cond_in_atomic = true;
+    cfg.allow_continue_g = rng.chance(2, 3);
+    cfg
+}
+
+struct JobOut {
+    st: Stats,
+    nontrivial_hashes: Vec<u64>,
+    sample: Option<Value>,
+}
+
+fn job(seed: u64, i: u64) -> (JobOut, Option<Violation>) {
+    let mut rng = Rng::new(derive(seed, i));
+    let mut out = JobOut { st: Stats::default(), nontrivial_hashes: Vec::new(), sample: None };
+    let cfg = gen_cfg(&mut rng);
+    for k in 0..4 {
+        let (pattern, ast) = if k == 0 && i % 2 == 0 {
+            (gen::CORPUS[((i / 2) as usize) % gen::CORPUS.len()].to_string(), None)
+        } else {
+            let ast = gen::gen_pattern(&mut rng, &cfg);
+            if ast.facts().keepout_in_look {
+                continue;
+            }
+            (ast.render(), Some(ast))
+        };
+        let builder = if rng.chance(1, 10) { Some(*rng.pick(&[0usize, 1, 2, 3, 5, 10])) } else { None };
+        let mut case = Case { pattern: pattern.clone(), text: String::new(), fault: None, builder };
+        let Some(re) = case.build() else { continue };
+        if builder.is_some() {
+            out.st.builder_cases += 1;
+        }
+        for _ in 0..3 {
+            case.text = gen::gen_text(&mut rng, 8);
+            case.fault = None;
+            // fault-free
+            let ff = real_history(&re, &case.text, &None);
+            let mut found = check_one(&re, &case.text, &None, None, &mut out.st);
+            let nontrivial_ff = ff.items.len() >= 2 || ff.items.iter().any(|it| matches!(it, Item::Match(s, e) if s == e));
+            let mut fired_any = false;
+            // faults: search #j in {first, last, random}, k/d around that search's own thresholds
+            if found.is_none() && builder.is_none() && !ff.runs.is_empty() && !matches!(ff.items.last(), Some(Item::Panic(_) | Item::Err(_))) {
+                let nruns = ff.runs.len();
+                let mut js = vec![0, nruns - 1, rng.below(nruns)];
+                js.sort();
+                js.dedup();
+                for j in js {
+                    let rs = ff.runs[j];
+                    let mut fs = Vec::new();
+                    if rs.backtracks > 0 {
+                        fs.push(("ble", rng.below(rs.backtracks as usize)));
+                        fs.push(("ble", rs.backtracks as usize)); // exactly enough: must not fire
+                    }
+                    if rs.peak_depth > 0 {
+                        fs.push(("so", rng.below(rs.peak_depth)));
+                    }
+                    for (kind, val) in fs {
+                        case.fault = Some(IterFault { j: j as u64, kind: kind.to_string(), val });
+                        let before = out.st.faults_fired;
+                        found = check_one(&re, &case.text, &case.fault, Some(&ff), &mut out.st);
+                        if out.st.faults_fired > before {
+                            fired_any = true;
+                        }
+                        if found.is_some() {
+                            break;
+                        }
+                    }
+                    if found.is_some() {
+                        break;
+                    }
+                }
+            }
+            if nontrivial_ff || fired_any {
+                out.st.nontrivial = true;
+                let mut h = Fnv::new();
+                h.str(&case.pattern);
+                h.str(&case.text);
+                out.nontrivial_hashes.push(h.0);
+                if out.sample.is_none() {
+                    out.sample = Some(json!({"pattern": case.pattern, "text": case.text, "fault_free_items": format!("{:?}", ff.items), "searches": ff.calls.len()}));
+                }
+            }
+            if let Some(f) = found {
+                let m = minimise(&case, ast.as_ref(), &f.class);
+                let mut st = Stats::default();
+                let detail = check_case(&m, &mut st).map(|x| x.detail).unwrap_or(f.detail);
+                return (out, Some(Violation::new(PROP, &f.class, detail, m.to_json())));
+            }
+        }
+        // interleaved stepping of 2..3 iterators over this regex
+        if rng.chance(1, 3) {
+            let n = rng.range(2, 3);
+            let texts: Vec<String> = (0..n).map(|_| gen::gen_text(&mut rng, 6)).collect();
+            let steps = rng.range(4, 24);
+            let order: Vec<usize> = (0..steps).map(|_| rng.below(n)).collect();
+            out.st.interleaved += 1;
+            if let Some(f) = interleaved(&re, &texts, &order) {
+                let replay = json!({"kind": "c08-interleaved", "pattern": pattern, "builder": builder, "texts": texts, "order": order});
+                return (out, Some(Violation::new(PROP, &f.class, f.detail, replay)));
+            }
+        }
+    }
+    (out, None)
+}
+
+fn add(a: &mut Stats, b: &Stats) {
+    a.histories += b.histories;
+    a.next_calls += b.next_calls;
+    a.searches += b.searches;
+    a.vm_insns += b.vm_insns;
+    a.faults_configured += b.faults_configured;
+    a.faults_fired += b.faults_fired;
+    a.err_first += b.err_first;
+    a.err_middle += b.err_middle;
+    a.err_last += b.err_last;
+    a.empty_skipped += b.empty_skipped;
+    a.adjacent_dropped += b.adjacent_dropped;
+    a.multibyte_step += b.multibyte_step;
+    a.g_refused_after_skip += b.g_refused_after_skip;
+    a.builder_cases += b.builder_cases;
+    a.interleaved += b.interleaved;
+    a.digest ^= b.digest.rotate_left(7);
+}
+
+pub fn digest(seed: u64, n: u64, workers: usize) -> Vec<u64> {
+    let (res, _) = run_batch(n, workers, move |i| {
+        let (o, v) = job(seed, i);
+        let mut d = Fnv(o.st.digest);
+        d.u64(o.st.histories);
+        d.u64(v.is_some() as u64);
+        (d.0, None)
+    });
+    res.into_iter().map(|(_, d)| d).collect()
+}
+
+/// Fixed witnesses of the recorded finding. Returns Err(violation) when a witness fails in a way
+/// that is not listed.
+fn known_witnesses(known: &[KnownFinding], lines: &mut Vec<String>) -> Result<(), Violation> {
+    for (p, t) in KEEPOUT_WITNESSES {
+        let case = Case { pattern: p.to_string(), text: t.to_string(), fault: None, builder: None };
+        let mut st = Stats::default();
+        if let Some(f) = check_case(&case, &mut st) {
+            let listed = (f.class == "items-overlap" || f.class == "items-not-increasing")
+                .then(|| is_known(known, PROP, KNOWN_KEY_KEEPOUT))
+                .flatten();
+            match listed {
+                Some(k) => lines.push(format!("KNOWN-FINDING: property={} {} [witness /{}/ on {:?}: {}]", PROP, k.what, p, t, f.detail)),
+                None => return Err(Violation::new(PROP, &f.class, f.detail, case.to_json())),
+            }
+        }
+    }
+    Ok(())
+}
+
+pub fn run(opts: &Opts) -> i32 {
+    let t0 = now();
+    let thorough = opts.tier == Tier::Thorough;
+    let n = if opts.budget > 0 { opts.budget } else if thorough { 2_000_000 } else { 30_000 };
+    let seed = opts.seed;
+    let known = load_known_findings();
+    let mut known_lines = Vec::new();
+    if let Err(v) = known_witnesses(&known, &mut known_lines) {
+        let path = write_replay(&v, seed);
+        report_violation(&v, &path);
+        return 1;
+    }
+    for l in &known_lines {
+        println!("{}", l);
+    }
+    let (results, viol) = run_batch(n, opts.workers, move |i| job(seed, i));
+    let mut st = Stats::default();
+    let mut nt: HashSet<u64> = HashSet::new();
+    let mut samples = Vec::new();
+    for (_, r) in &results {
+        add(&mut st, &r.st);
+        nt.extend(r.nontrivial_hashes.iter());
+        if samples.len() < 4 {
+            if let Some(s) = &r.sample {
+                samples.push(s.clone());
+            }
+        }
+    }
+    let wall = t0.elapsed().as_secs_f64();
+    let mut code = 0;
+    let mut violations = 0;
+    if let Some((i, v)) = &viol {
+        violations = 1;
+        let path = write_replay(v, derive(seed, *i));
+        let again = replay(&v.replay);
+        if again.as_ref().map(|(c, _)| c.as_str()) != Some(v.class.as_str()) {
+            eprintln!("harness error: C08 violation did not reproduce on replay: {:?} vs {}", again, v.class);
+            return 2;
+        }
+        report_violation(v, &path);
+        code = 1;
+    }
+    if samples.is_empty() {
+        samples.push(json!("no non-trivial history in this run"));
+    }
+    if opts.write_evidence {
+        let mut extra = serde_json::Map::new();
+        extra.insert("histories".into(), json!(st.histories));
+        extra.insert("next_calls".into(), json!(st.next_calls));
+        extra.insert("faults".into(), json!({
+            "limit_fault_on_search_j_configured": st.faults_configured,
+            "limit_fault_on_search_j_fired": st.faults_fired,
+            "configured_not_fired": st.faults_configured - st.faults_fired,
+            "builder_limit_regexes": st.builder_cases,
+        }));
+        extra.insert("logical_time".into(), json!({"vm_instructions": st.vm_insns, "lower_layer_searches": st.searches}));
+        extra.insert("probes".into(), json!({
+            "empty_match_yielded_and_stepped_over": st.empty_skipped,
+            "adjacent_empty_match_dropped": st.adjacent_dropped,
+            "multi_byte_step_after_empty_match": st.multibyte_step,
+            "searches_told_an_empty_match_was_skipped": st.g_refused_after_skip,
+            "error_at_first_search": st.err_first,
+            "error_at_middle_search": st.err_middle,
+            "error_at_last_search": st.err_last,
+            "interleaved_iterator_scenarios": st.interleaved,
+        }));
+        extra.insert("runs_per_hour".into(), json!(((st.histories as f64) / wall.max(1e-9) * 3600.0) as u64));
+        extra.insert("seeds".into(), json!(format!("derive({}, 0..{})", seed, results.len())));
+        extra.insert("real_vs_stub".into(), json!({
+            "real": ["Regex::find_iter / Matches::next", "the search primitive find_from_pos_with_option_flags", "vm::run", "regex-automata"],
+            "model": ["executable transcription of the statement (sim/src/c08.rs model_history), querying the same real search layer under the same fault plan"],
+            "stubbed": ["limits of search #j overridden through the H2 hook"],
+        }));
+        extra.insert("known_findings_reported".into(), json!(known_lines));
+        Evidence {
+            property: PROP.into(),
+            tier: opts.tier,
+            seed,
+            level: "exploration",
+            evaluations: st.histories,
+            distinct_nontrivial: nt.len() as u64,
+            rule: "history = find_iter stepped to its end on (pattern, text), fault-free and with a limit fault on search #j (first/last/random; k,d drawn below and at that search's own thresholds); non-trivial = >= 2 items, or an empty match, or a fired fault; distinct by hash of (pattern, text)".into(),
+            samples,
+            extra,
+            assumptions: vec![
+                "the answer of each single search is trusted (C01/C02 not decided here)".into(),
+                "\\K inside look-arounds is kept out of generated workloads (known finding, fixed witnesses)".into(),
+            ],
+            wall_s: wall,
+            violations,
+        }
+        .write();
+    }
+    println!(
+        "C08 {}: {} histories, {} faults fired of {} configured, {} distinct non-trivial, {:.1}s",
+        opts.tier.name(), st.histories, st.faults_fired, st.faults_configured, nt.len(), wall
+    );
+    code
+}
